@@ -1,9 +1,63 @@
 package main
 
+import (
+	"fmt"
+	"go/ast"
+)
+
 // C20 (totality of the non-UEFI parsers): per anchored function the inventory of every make /
 // slice / index expression (kind "sites"), the packed sizes of the records the GoM models read
 // with binaryReadG, and the constants the guards compare with.  One Gen area per Go package;
 // the expectations are in lean/FianoModel/Total/Tie.lean.
+// kind "guards": the conditions of every `if` of a function in source order, each prefixed with the
+// statement kinds that enclose it ("for/if: cond" = an `if` nested in an `if` inside a loop).  Used
+// for the loops whose termination depends on a check being made for *every* element: moving such a
+// check into a branch changes its path and breaks the Tie theorem.
+func init() {
+	extraKinds["guards"] = func(em *emitter, p *pkgInfo, it Item) {
+		fd, ok := p.funcs[it.Name]
+		if !ok || fd.Body == nil {
+			em.fail(it, "List String", "[]", "function not found")
+			return
+		}
+		var out []string
+		var walk func(n ast.Node, path string)
+		walkList := func(l []ast.Stmt, path string) {
+			for _, s := range l {
+				walk(s, path)
+			}
+		}
+		walk = func(n ast.Node, path string) {
+			switch x := n.(type) {
+			case *ast.BlockStmt:
+				walkList(x.List, path)
+			case *ast.IfStmt:
+				out = append(out, path+"if: "+exprText(p.fset, x.Cond))
+				walk(x.Body, path+"if/")
+				if x.Else != nil {
+					walk(x.Else, path+"else/")
+				}
+			case *ast.ForStmt:
+				c := ""
+				if x.Cond != nil {
+					c = exprText(p.fset, x.Cond)
+				}
+				out = append(out, path+"for: "+c)
+				walk(x.Body, path+"for/")
+			case *ast.RangeStmt:
+				out = append(out, path+"range: "+exprText(p.fset, x.X))
+				walk(x.Body, path+"for/")
+			case *ast.SwitchStmt:
+				walk(x.Body, path+"switch/")
+			case *ast.CaseClause:
+				walkList(x.Body, path)
+			}
+		}
+		walk(fd.Body, "")
+		fmt.Fprintf(&em.b, "def guards_%s : List String := %s\n\n", leanName(it.Name), strList(out))
+	}
+}
+
 func init() {
 	specs = append(specs,
 		Spec{Area: "C20Fmap", Pkg: "pkg/fmap", Items: []Item{
@@ -117,6 +171,46 @@ func init() {
 			{Kind: "const", Name: "signedDataStart"},
 			{Kind: "layout", Name: "PSPHeaderData"},
 			{Kind: "layout", Name: "keyDBHeader"},
+		}},
+		Spec{Area: "C20Apcb", Pkg: "pkg/amd/apcb", Items: []Item{
+			{Kind: "sites", Name: "ParseAPCBBinaryTokens"},
+			{Kind: "sites", Name: "parseAPCBHeader"},
+			{Kind: "sites", Name: "iterateTokenGroups"},
+			{Kind: "sites", Name: "iterateTypes"},
+			{Kind: "sites", Name: "iterateTokens"},
+			{Kind: "guards", Name: "iterateTokenGroups"},
+			{Kind: "guards", Name: "iterateTypes"},
+			{Kind: "guards", Name: "iterateTokens"},
+			{Kind: "layout", Name: "headerV3"},
+			{Kind: "layout", Name: "groupHeader"},
+			{Kind: "layout", Name: "typeHeaderV3"},
+			{Kind: "layout", Name: "tokenPair"},
+			{Kind: "const", Name: "tokensGroupID"},
+			{Kind: "const", Name: "headerV2Signature"},
+			{Kind: "const", Name: "headerV3Signature"},
+			{Kind: "const", Name: "headerV3EndingSignature"},
+		}},
+		Spec{Area: "C20Cbfs", Pkg: "pkg/cbfs", Items: []Item{
+			{Kind: "sites", Name: "NewImage"},
+			{Kind: "sites", Name: "NewFile"},
+			{Kind: "sites", Name: "ReadName"},
+			{Kind: "sites", Name: "ReadAttributes"},
+			{Kind: "sites", Name: "ReadData"},
+			{Kind: "sites", Name: "File.FindAttribute"},
+			{Kind: "sites", Name: "LegacyStageRecord.Read"},
+			{Kind: "sites", Name: "PayloadRecord.Read"},
+			{Kind: "sites", Name: "MasterRecord.Read"},
+			{Kind: "guards", Name: "NewImage"},
+			{Kind: "guards", Name: "NewFile"},
+			{Kind: "guards", Name: "File.FindAttribute"},
+			{Kind: "guards", Name: "LegacyStageRecord.Read"},
+			{Kind: "const", Name: "FileSize"},
+			{Kind: "layout", Name: "FileHeader"},
+			{Kind: "layout", Name: "StageHeader"},
+			{Kind: "layout", Name: "PayloadHeader"},
+			{Kind: "const", Name: "TypeLegacyStage"},
+			{Kind: "const", Name: "TypeSELF"},
+			{Kind: "const", Name: "SegEntry"},
 		}},
 		Spec{Area: "C20Compression", Pkg: "pkg/compression", Items: []Item{
 			{Kind: "sites", Name: "ZLIB.Decode"},
